@@ -694,6 +694,88 @@ def cpp_destructor_findings(mod, d, out, replay_dir):
     return notes
 
 
+def cpp_ownership_findings(mod, d, out, replay_dir):
+    """C03, C++ half (declaration level only): which generated C++ method bodies take ownership of a returned opaque.
+    A `Box<T>` (also inside Option / Result::Ok / an out-struct field) must be wrapped in exactly one
+    `std::unique_ptr<T>(T::FromFFI(..))`, a borrowed `&T` / `Option<&T>` must not be wrapped at all, and every body calls
+    its own C symbol exactly once.  Must run after cpp_destructor_findings (which generates <d>/cpp).  Only definite
+    disagreements with recognised shapes are findings."""
+    B = bridgegen
+    notes = []
+    cppdir = os.path.join(d, "cpp")
+    if not os.path.isdir(cppdir):
+        return notes
+    texts = {f: open(os.path.join(cppdir, f)).read() for f in os.listdir(cppdir) if f.endswith(".hpp") and not f.endswith(".d.hpp")}
+    alltxt = "\n".join(texts.values())
+    bodies = re.findall(r"\ninline\s+([^\n;{}]*?)\s+(\w+)::(\w+)\s*\(([^{};]*?)\)\s*(?:const\s*)?\{(.*?)\n\}", alltxt, flags=re.S)
+    n = 0
+
+    def report(subject, problem, text):
+        os.makedirs(replay_dir, exist_ok=True)
+        path = os.path.join(replay_dir, "static_cpp_%s_%s.txt" % (mod.name, re.sub(r"\W+", "_", subject)))
+        with open(path, "w") as fh:
+            fh.write("DISAGREEMENT in the generated C++ wrapper\n\nfinding: %s\n\n%s\n\nReproduce: diplomat-tool cpp on %s\n" % (problem, text, os.path.join(d, "src", "lib.rs")))
+        out["violations"].append(("static:cpp:%s:%s" % (mod.name, subject), path, problem))
+
+    def owned_in(t):
+        """(number of owning wrappers expected in the method body itself, opaque type name)"""
+        if isinstance(t, B.OpaqueBox):
+            return 1, t.name
+        if isinstance(t, B.Res) and isinstance(t.ok, B.OpaqueBox):
+            return 1, t.ok.name
+        return 0, None
+
+    for m in mod.methods:
+        sym = m.abi_name()
+        mine = [b for b in bodies if re.search(r"diplomat::capi::%s\s*\(" % re.escape(sym), b[4])]
+        if len(mine) != 1:
+            if len(mine) > 1:
+                report(sym, "%d generated C++ functions call the C symbol %s; expected exactly one" % (len(mine), sym), "")
+            else:
+                notes.append("%s: no C++ body calling it was recognised" % sym)
+            continue
+        rett, owner, name, params, body = mine[0]
+        text = "inline %s %s::%s(%s) {%s\n}" % (rett, owner, name, params, body)
+        calls = len(re.findall(r"diplomat::capi::%s\s*\(" % re.escape(sym), body))
+        n += 1
+        if calls != 1:
+            report(sym, "the C++ wrapper of %s calls the C function %d times; the Rust method must run exactly once" % (sym, calls), text)
+            continue
+        if m.ret is None:
+            continue
+        want, tname = owned_in(m.ret)
+        wraps = re.findall(r"std::unique_ptr<\s*(?:\w+::)*(\w+)\s*>\s*\(\s*(?:\w+::)*\w+::FromFFI\s*\(", body)
+        if want:
+            if len(wraps) != 1 or wraps[0] != tname:
+                report(sym, "%s returns an owned %s (Box): the C++ wrapper must take ownership through exactly one std::unique_ptr<%s>(%s::FromFFI(..)); found %s"
+                       % (sym, tname, tname, tname, wraps or "none"), text)
+            elif "std::unique_ptr<" not in rett:
+                report(sym, "%s returns an owned %s (Box) but the C++ return type `%s` is not owning" % (sym, tname, rett), text)
+        elif isinstance(m.ret, B.OpaqueRef):
+            if wraps or "unique_ptr" in body or "unique_ptr" in rett:
+                report(sym, "%s returns a borrowed %s but the C++ wrapper takes ownership (std::unique_ptr): the object would be destroyed twice" % (sym, m.ret.name), text)
+    # out-structs: owned opaque fields are adopted in <Struct>::FromFFI
+    for sd in mod.structs.values():
+        boxed = [(fn, t) for fn, t in sd.fields if isinstance(t, B.OpaqueBox)]
+        if not boxed:
+            continue
+        fm = re.search(r"inline\s+%s\s+%s::FromFFI\s*\([^)]*\)\s*\{(.*?)\n\}" % (re.escape(sd.name), re.escape(sd.name)), alltxt, flags=re.S)
+        if not fm:
+            notes.append("%s::FromFFI not recognised" % sd.name)
+            continue
+        for fn, t in boxed:
+            lm = re.search(r"/\*\s*\.%s\s*=\s*\*/\s*([^\n]*)" % re.escape(fn), fm.group(1))
+            if not lm:
+                notes.append("%s::FromFFI: field %s not recognised" % (sd.name, fn))
+                continue
+            n += 1
+            if not re.match(r"std::unique_ptr<\s*(?:\w+::)*%s\s*>\s*\(\s*(?:\w+::)*%s::FromFFI\s*\(\s*c_struct\.%s\s*\)\s*\)" % (re.escape(t.name), re.escape(t.name), re.escape(fn)), lm.group(1).strip()):
+                report("%s.%s" % (sd.name, fn), "out-struct field %s.%s is an owned %s (Box) but %s::FromFFI does not adopt it with std::unique_ptr<%s>(%s::FromFFI(c_struct.%s)): `%s`"
+                       % (sd.name, fn, t.name, sd.name, t.name, t.name, fn, lm.group(1).strip()), fm.group(0))
+    notes.append("%d C++ method bodies / out-struct fields checked for ownership in %s" % (n, mod.name))
+    return notes
+
+
 def run(prop):
     """Engine entry point used by props.run_property."""
     if prop == "C07":
@@ -731,6 +813,7 @@ def run(prop):
                 out["violations"].append(("static:%s:%s" % (mod.name, subject), path, message))
         if prop == "C03" and not isinstance(mod, RawModule) and mod.name in ("m0_core", "m0_callbacks"):
             out["coverage"].setdefault("cpp_wrapper_notes", []).extend(cpp_destructor_findings(mod, prep["dir"], out, replay_dir))
+            out["coverage"].setdefault("cpp_wrapper_notes", []).extend(cpp_ownership_findings(mod, prep["dir"], out, replay_dir))
         programs.append({"module": mod.name, "types": len(mod.order), "methods": len(mod.methods),
                          "c_functions": len(prep["cm"].functions), "harnesses": len(wanted), "dropped_by_lowering": prep.get("fitted_out", []),
                          "sha": hashlib.sha256(open(os.path.join(prep["dir"], "src", "lib.rs"), "rb").read()).hexdigest()[:12]})
